@@ -9,7 +9,7 @@ import (
 )
 
 func init() {
-	register("C11", "Ownership and write-effect analysis: (R1) no instruction in any function reachable from the read-only API (Validate, Walk, every rule, VariableValues, ArgumentMap, Value.Value, the formatter, the ast read helpers) stores through an address that may be schema memory — by type (Schema, Definition, FieldDefinition, ArgumentDefinition, EnumValueDefinition, DirectiveDefinition), by derivation from such a value, or through a document field that links into the schema (ExpectedType, Definition, ObjectDefinition, ...) — directly or by passing it to a callee whose mod-summary writes that parameter; (R2) none of them writes a package-level variable; (R3) rule state is per Validate call. Decides data-race freedom on the schema and its immutability for all schedules and histories; aliasing created through reflection is outside the analysis (checked: no schema value reaches reflect).", runC11)
+	register("C11", "Ownership and write-effect analysis: (R1) no instruction in any function reachable from the read-only API (Validate, Walk, every rule, VariableValues, ArgumentMap, Value.Value, the formatter, the ast read helpers) stores through an address that may be schema memory — by type (Schema, Definition, FieldDefinition, ArgumentDefinition, EnumValueDefinition, DirectiveDefinition), by derivation from such a value, or through a document field that links into the schema (ExpectedType, Definition, ObjectDefinition, ...) — directly or by passing it to a callee whose mod-summary writes that parameter; (R2) none of them writes a package-level variable; (R3) rule state is per Validate call. Decides data-race freedom on the schema and its immutability for all schedules and histories; aliasing created through reflection is outside the analysis (checked: no schema value reaches reflect). (R4) no process-wide state: package-level variables are only loaded outside initialisers and the registry functions.", runC11)
 }
 
 // readOnlyRoots returns the API a shared schema may be used through concurrently.
@@ -162,6 +162,9 @@ func runC11(c *Ctx) {
 
 	r3 := c.Rule("R3", "per-call state: a rule's observers capture only variables created inside its RuleFunc invocation, and read no package-level variable that anything writes after init", 1)
 	c11PerCallState(c, r3, scope)
+
+	r4 := c.Rule("R4", "no process-wide state: package-level variables are only read after init (rule registry excepted)", 1)
+	noProcessState(c, r4, nil)
 }
 
 // c11PerCallState: every module Global read from the scope must be write-once (only written by package init or the registry mutators).
